@@ -233,7 +233,7 @@ RULES.append(("C17.f", "must-pass-through: no path around the effects this prope
 
 def rule_commit(ctx):
     from . import mustpass
-    for g, floor in [('sinks', 6)]:
+    for g, floor in [('sinks', 6), ('ports', 80)]:
         mustpass.commit_group(ctx, g, floor)
 
 
